@@ -691,7 +691,8 @@ class ResultOracle:
 
     def sig(self, **kw):
         c = self.sim.cfg
-        s = {"strategy": getattr(self.sim, "strategy", "dimension_wise"), "grid": c.get("grid", "GlobalTrapezoidalGrid")}
+        s = {"strategy": getattr(self.sim, "strategy", "dimension_wise"),
+             "grid": c.get("grid", "GlobalTrapezoidalGrid" if getattr(self.sim, "strategy", "dimension_wise") == "dimension_wise" else "TrapezoidalGrid")}
         s.update(kw)
         return s
 
